@@ -195,7 +195,15 @@ class DULServiceProvider(threading.Thread):
                     evt = self.event.popleft()
                 except IndexError:
                     continue
-                self.state_machine.action(evt)
+                try:
+                    self.state_machine.action(evt)
+                except socket.error:
+                    # transport connection is lost while PDU is being sent (connection reset
+                    # by peer): same as transport connection closed indication
+                    if self.dul_socket:
+                        self.dul_socket.close()
+                        self.dul_socket = None
+                    self.event.append(fsm.Events.EVT_17)
         except Exception:
             self.to_service_user.put(pdu.AAbortPDU(source=0, reason_diag=0))
             raise
